@@ -104,6 +104,14 @@ def judge(site, opts, res, rows, log, part, replay):
         if len(seqs) > 1:
             spellings = sorted(set(l['spelling'] for p in site.pages.values() for l in p.links if l['target'] == url))
             kind = 'redirect-target' if url in redirect_targets else 'page'
+            linked_directly = any(l['target'] == url for p in site.pages.values() for l in p.links)
+            if kind == 'redirect-target' and linked_directly and len(seqs) == 2 and url in rowmap and \
+                    redirect_targets[url] in requested:
+                # mechanism: a redirect hop is fetched inside the redirecting item's session and is not recorded in
+                # the URL table, so the same URL is fetched again when it is also an item of its own
+                part.violation('redirect-target-also-linked-fetched-as-hop-and-as-item',
+                               {'url': url, 'redirected_from': redirect_targets[url]}, replay)
+                continue
             part.violation('requested-more-than-once/{}/{}'.format(kind, cls),
                            {'url': url, 'times': len(seqs), 'link_spellings': spellings}, replay)
         if url not in site.pages:
@@ -213,7 +221,8 @@ def nontrivial_key(site, opts):
 
 def build_site(case):
     rng = random.Random(case['site_seed'])
-    return sitegen.generate(rng, n_pages=case.get('n_pages'), redirects=case.get('redirects', True), junk_links=True)
+    return sitegen.generate(rng, n_pages=case.get('n_pages'), redirects=case.get('redirects', True), junk_links=True,
+                            link_redirect_targets=case.get('link_redirect_targets', False))
 
 
 def worker(job):
@@ -266,7 +275,7 @@ def main():
             site_seed = rng.randrange(1 << 30)
             opts = gen_options(rng)
             cases.append({'site_seed': site_seed, 'opts': opts, 'delay_seed': rng.randrange(1 << 30),
-                          'n_pages': rng.choice([3, 5, 8, 12, 20, 40])})
+                          'n_pages': rng.choice([3, 5, 8, 12, 20, 40]), 'link_redirect_targets': i % 10 == 9})
             if check.thorough and i % 10 == 0:
                 # concurrency sweep on the same site
                 for c in (1, 2, 3, 4, 6, 8):
